@@ -1,4 +1,7 @@
 use crate::idmap::{ExternalId, I2eRecord, IdMap, InternalNodeId, LabelId};
+#[cfg(nervusdb_verif)]
+use crate::verif::sync::Mutex;
+#[cfg(not(nervusdb_verif))]
 use std::sync::Mutex;
 
 pub(crate) fn read_i2e_snapshot(idmap: &Mutex<IdMap>) -> Vec<I2eRecord> {
